@@ -24,11 +24,14 @@ type State struct {
 	Defers []deferRec
 	Ghost  map[string]Term // ghost call records: called:<name>, failed:<name>
 	GhostUnknown bool      // absent records are unknown (inside / after a loop) rather than false
+	// GhostLoopNames: when non-nil, only records of these call names ("*" = any)
+	// are unknown when absent; the others are still "not called"
+	GhostLoopNames map[string]bool
 	Gen    int // heap generation: keys absent from Heap denote the generation's initial constant
 }
 
 func (s *State) clone() *State {
-	n := &State{Reach: s.Reach, Alloc: s.Alloc, Gen: s.Gen, GhostUnknown: s.GhostUnknown}
+	n := &State{Reach: s.Reach, Alloc: s.Alloc, Gen: s.Gen, GhostUnknown: s.GhostUnknown, GhostLoopNames: s.GhostLoopNames}
 	n.Heap = make(map[string]Term, len(s.Heap))
 	for k, v := range s.Heap {
 		n.Heap[k] = v
@@ -180,6 +183,25 @@ func (c *Ctx) mergeStates(ins []*State) *State {
 			out.GhostUnknown = true
 		}
 	}
+	if out.GhostUnknown {
+		// union of the name sets; nil (everything unknown) absorbs
+		all := false
+		names := map[string]bool{}
+		for _, s := range ins {
+			if !s.GhostUnknown {
+				continue
+			}
+			if s.GhostLoopNames == nil {
+				all = true
+			}
+			for k := range s.GhostLoopNames {
+				names[k] = true
+			}
+		}
+		if !all {
+			out.GhostLoopNames = names
+		}
+	}
 	if len(gk) > 0 {
 		out.Ghost = map[string]Term{}
 		for k := range gk {
@@ -200,7 +222,7 @@ func (c *Ctx) mergeStates(ins []*State) *State {
 						v = c.fresh("ghostres", srt)
 					} else {
 						v = TFalse
-						if s.GhostUnknown {
+						if s.ghostAbsentUnknown(k) {
 							v = c.fresh("ghostunk", SBool)
 						}
 					}
@@ -417,4 +439,32 @@ func (c *Ctx) allocBound(s *State, h Term) Term {
 		return a
 	}
 	return s.Alloc
+}
+
+// ghostKeyName extracts the call name from a ghost record key
+// ("called:N", "failed:N", "result:N", "res:N:k").
+func ghostKeyName(k string) string {
+	i := strings.IndexByte(k, ':')
+	if i < 0 {
+		return k
+	}
+	n := k[i+1:]
+	if strings.HasPrefix(k, "res:") {
+		if j := strings.LastIndexByte(n, ':'); j >= 0 {
+			n = n[:j]
+		}
+	}
+	return n
+}
+
+// ghostAbsentUnknown: an absent record with this key is unknown (rather than
+// "not called") in this state.
+func (s *State) ghostAbsentUnknown(key string) bool {
+	if !s.GhostUnknown {
+		return false
+	}
+	if s.GhostLoopNames == nil || s.GhostLoopNames["*"] {
+		return true
+	}
+	return s.GhostLoopNames[ghostKeyName(key)]
 }
